@@ -43,6 +43,8 @@ type sched struct {
 	cancel   *ssa.Function
 	// the scheduling loop (outer) and the per-stage loop (inner) of Schedule
 	outer, inner *an.Loop
+	outerFn      *ssa.Function   // function containing the scheduling loop (loopFn or a synchronous caller of it)
+	innerAnchor  *ssa.BasicBlock // block of outerFn through which a pass enters the per-stage loop (its header, or the call that reaches it)
 	launch       *ssa.Go               // the go statement that starts a stage
 	launchFn     *ssa.Function         // function containing it
 	loopFn       *ssa.Function         // function containing the per-stage loop (launchFn or a synchronous caller of it)
@@ -170,6 +172,11 @@ func resolveSched(c *an.Ctx, rule string) *sched {
 				if !an.InModule(callee) {
 					continue
 				}
+				// a nested pipeline: Schedule returns when its stages have run (C03.2)
+				if callee == s.schedule {
+					s.runnerCalls = append(s.runnerCalls, ci)
+					return
+				}
 				if ok, _ := reachesRun(callee); ok {
 					s.runnerCalls = append(s.runnerCalls, ci)
 					return
@@ -212,6 +219,34 @@ func resolveSched(c *an.Ctx, rule string) *sched {
 	if s.inner == nil {
 		c.Und(rule, "scheduler.(*Scheduler).Schedule:loop", s.launch.Pos(), "launch site is not inside a loop (neither in %s nor in its synchronous callers)", an.Short(s.launchFn))
 		return s
+	}
+	// the scheduling loop: around the per-stage loop in the same function, or around the call that reaches it
+	if s.outer != nil {
+		s.outerFn, s.innerAnchor = s.loopFn, s.inner.Header
+	} else {
+		fn := s.loopFn
+		for depth := 0; depth < 4 && s.outer == nil; depth++ {
+			var callers []ssa.CallInstruction
+			for _, cs := range p.CallSitesOf(fn) {
+				if _, isGo := cs.(*ssa.Go); isGo {
+					continue
+				}
+				if _, ok := syncReach[cs.Parent()]; ok || cs.Parent() == s.schedule {
+					callers = append(callers, cs)
+				}
+			}
+			if len(callers) != 1 {
+				break
+			}
+			site := callers[0]
+			fn = site.Parent()
+			if l := an.InnermostLoop(an.Loops(fn), site.Block()); l != nil {
+				s.outer, s.outerFn, s.innerAnchor = l, fn, site.Block()
+			}
+		}
+	}
+	if s.outerFn != nil {
+		c.Anchor("scheduling loop", an.Short(s.outerFn))
 	}
 	_, vals := s.inner.RangeKeyValue()
 	if len(vals) >= 1 {
